@@ -1,4 +1,5 @@
 import SJ.Model.FloatFmt
+import SJ.Proofs.FloatFmt
 /-
 C18 — Floats are printed shortest-round-trip in ECMAScript format.
 -/
@@ -12,5 +13,31 @@ theorem C18_thresholds : cfloatFmtLo = "1e-6" ∧ cfloatFmtHi = "1e21" := by dec
 theorem C18_threshold_bits :
     F64.roundDecimal false 1 (-6) = some 0x3eb0c6f7a0b5ed8d ∧ F64.roundDecimal false 1 21 = some 0x444b1ae4d6e2ef50 := by
   decide +kernel
+
+open SJ.FloatFmtProofs SJ.Spec
+
+/-- **Plain-decimal form**: for every digit string (first digit non-zero) and decimal point, the text is a number
+    literal of the RFC grammar denoting exactly ± digits · 10^(dp − nd). -/
+theorem C18_fmtF_value (neg : Bool) (s : Shortest) (wf : WF s) :
+    ∃ l, Spec.numberLit (fmtF neg s).toList = some (l, []) ∧ (litValue l).1 = neg ∧
+      SameDecimal (litValue l).2.1 (litValue l).2.2 (natOfDigits s.digits) (s.dp - s.digits.length) := fmtF_value neg s wf
+/-- **Exponent form** (after the `e-0N` clean-up): same, for every exponent a float64 can have. -/
+theorem C18_fmtE_value (neg : Bool) (s : Shortest) (wf : WF s) (hexp : (s.dp - 1).natAbs < 10 ^ 7) :
+    ∃ l, Spec.numberLit (cleanExp (fmtE neg s)).toList = some (l, []) ∧ (litValue l).1 = neg ∧
+      SameDecimal (litValue l).2.1 (litValue l).2.2 (natOfDigits s.digits) (s.dp - s.digits.length) := fmtE_value neg s wf hexp
+/-- The bit-pattern comparison with the two thresholds is the exact comparison of the values. -/
+theorem C18_threshold_exact (abs : UInt64) (ha : abs.toNat < 2^63) (hfa : F64.isFinite abs = true) :
+    (decide (abs ≥ loBits) && decide (abs < hiBits)) = true ↔
+      posLe (F64.decode loBits) (F64.decode abs) ∧ posLt (F64.decode abs) (F64.decode hiBits) := threshold_exact abs ha hfa
+/-- ECMAScript shape of the exponent form in the range where `appendFloat` uses it: one digit, optional
+    fraction without trailing zero, `e`, sign, exponent without zero padding. -/
+theorem C18_fmtE_shape (neg : Bool) (s : Shortest) (wf : WF s) (hlast : s.digits.getLast? ≠ some 0)
+    (hrange : s.dp ≤ 0 ∨ 11 ≤ s.dp) :
+    ∃ d fp es ex,
+      (cleanExp (fmtE neg s)).toList = signL neg ++ d :: ((if fp = [] then [] else 46 :: fp) ++ 101 :: es :: ex) ∧
+      isDigit d = true ∧ d ≠ 48 ∧ (∀ c ∈ fp, isDigit c = true) ∧ fp.getLast? ≠ some 48 ∧
+      (fp = [] ↔ s.digits.length = 1) ∧ (es = 43 ∨ es = 45) ∧ (es = 45 ↔ s.dp - 1 < 0) ∧
+      ex ≠ [] ∧ (∀ c ∈ ex, isDigit c = true) ∧ ex.head? ≠ some 48 ∧ digitsVal ex = (s.dp - 1).natAbs :=
+  fmtE_shape neg s wf hlast hrange
 
 end SJ.Properties.C18
